@@ -126,6 +126,10 @@ func genStream(r *Rng, prop, phase string, knob bool, pEarly, pErr float64) []*S
 	rs.Scribble = genScribble(r)
 	rs.Rich = r.Chance(0.2)
 	rs.Consumer = genConsumer(r)
+	if r.Chance(0.04) {
+		rs.GC = r.Pick([]string{"mid", "end", "end", "both"})
+		rs.GCEvery = r.Range(1, 4)
+	}
 	if r.Chance(0.06) {
 		rs.Std = r.Pick(stdReaders)
 		if rs.Fault.Kind == "error" {
@@ -858,6 +862,9 @@ func evaluate(s *Scenario, st *runStats) (fail *Failure) {
 		}
 		for _, k := range obs.Kinds {
 			st.Probes["task_"+k]++
+			if k == "gc" {
+				st.Faults["garbage_collection_at_a_chosen_instant"] += 3
+			}
 		}
 		if raceEnabled {
 			st.Probes["race_detector_active"]++
@@ -1010,6 +1017,9 @@ func streamStats(s *Scenario, obs *streamObs, st *runStats) (nontrivial bool) {
 			st.Faults["caller_reused_reader_storage_after_parse"]++
 		}
 	}
+	if obs.Collections > 0 {
+		st.Faults["garbage_collection_at_a_chosen_instant"] += obs.Collections
+	}
 	if obs.EagerRewrites > 0 {
 		st.Probes["consumer_completed_blocks_between_NextBlock_calls"] += obs.EagerRewrites
 		st.Probes["consumer_schedule_"+s.Reader.Consumer]++
@@ -1068,5 +1078,5 @@ func streamStats(s *Scenario, obs *streamObs, st *runStats) (nontrivial bool) {
 		st.Probes["calls_after_terminal_error"] += len(obs.ExtraErrs)
 	}
 	return dataReads > 1 || rd.EmptyReads > 0 || s.Reader.Fault.Kind == "error" || s.Reader.Fault.Kind == "early-eof" ||
-		rd.DataWithErr > 0 || len(s.Knobs) > 0 || rd.Scribbled > 0 || obs.EagerRewrites > 0 || s.Reader.Std != ""
+		rd.DataWithErr > 0 || len(s.Knobs) > 0 || rd.Scribbled > 0 || obs.EagerRewrites > 0 || s.Reader.Std != "" || obs.Collections > 0
 }
